@@ -15,6 +15,16 @@ CHECKS = {
                 note="Trusted: pbt/gdsmodel.py, pbt/geomkit.py. Centre lines/outlines of paths are taken from gdstk (transport "
                      "only; C07/C08 judge them). Arrays with off-grid lattices are compared with 1 grid unit tolerance.",
                 technique="property-based testing (Hypothesis) of a save/load round trip against a reference model"),
+    "C03": dict(level="exploration", design="4 C03",
+                text="Differential against an independent, specification-derived GDSII codec (pbt/gdsref.py): (A) generated "
+                     "abstract layouts are serialised with drawn encoder choice points and loaded by read_gds with a drawn target "
+                     "unit, the dump must equal the denoted layout; (B) files written by write_gds must be accepted by the strict "
+                     "decoder and decode to the expected library of C01; the codec is self-checked (decode(encode(x)) == x) on "
+                     "every case.",
+                note="Trusted: my reading of the GDSII stream format (DESIGN Appendix A.1), pbt/gdsref.py, pbt/gdsmodel.py. "
+                     "Unsupported optional records may be reported as warnings; AREF lattices are generated aligned with the "
+                     "rotated/reflected axes as the format prescribes.",
+                technique="differential property-based testing (Hypothesis) against an independent format codec with encoder choice points"),
     "C05": dict(level="exploration", design="4 C05",
                 text="Generated pairs of polygon groups (simple polygons of six families, snapped to force coincidences, sizes "
                      "64..2^45 grid units, optional feedback of earlier outputs) through all four operations; oracle = exact "
